@@ -243,7 +243,9 @@ def judge(rec, step, kwargs, before, after, k, innate_tip, case):
             rng_ = float(np.ptp(d[:L])) or 1e-300
             rec.maximum("slope correction: deviation from affine / range",
                         dev / rng_)
-            rec.check(dev <= 1e-9 * rng_,
+            # (the trend is recovered as a difference of forces: round-off
+            #  of the forces themselves is the floor when the trend is tiny)
+            rec.check(dev <= 1e-9 * rng_ + 64 * EPS * fscale,
                       "correct_force_slope/not-affine-in-%s" % (
                           "tip-position" if strategy == "shift" else "time"),
                       "subtracted trend deviates from an affine function of "
